@@ -502,7 +502,22 @@ where
             });
 
         // Move entries out of the map — avoids Vec clone
-        let entries = entries_per_peer.remove(&peer_id).unwrap_or_default();
+        let mut entries = entries_per_peer.remove(&peer_id).unwrap_or_default();
+
+        // A request must carry consecutive indexes starting right after prev_log_index. When the
+        // per-request cap cut the backlog short, the freshly proposed entries that were tacked
+        // on behind it are not adjacent: keep the contiguous run only (the rest is sent once
+        // the peer has caught up), otherwise the follower would end up with a hole in its log.
+        let mut expected = prev_log_index + 1;
+        let contiguous = entries
+            .iter()
+            .take_while(|e| {
+                let ok = e.index == expected;
+                expected += 1;
+                ok
+            })
+            .count();
+        entries.truncate(contiguous);
 
         debug!(
             "[Leader {} -> Follower {}] Replicating {} entries",
